@@ -15,9 +15,9 @@ THEOREMS = [f"NumbersModel.Props.C10.{t}" for t in (
     # the same clauses over the definitions py2lean regenerates from xrefs.py on every run
     "src_cell_roundtrip", "src_col_name", "src_col_name_injective", "src_col_name_surjective", "src_col_strict_mono",
     "src_negative_rejected", "src_negative_col_rejected", "src_range_collapses_iff", "src_col_offset_roundtrip",
-    "src_col_name_fuel_suffices")] + [f"NumbersModel.Translated.{t}" for t in (
+    "src_col_name_fuel_suffices", "src_tokenizer_col_index_roundtrip", "src_tokenizer_col_index_name")] + [f"NumbersModel.Translated.{t}" for t in (
     "xl_col_to_name_eq_model", "xl_rowcol_to_cell_eq_model", "xl_range_eq_model", "xl_cell_to_rowcol_eq_model",
-    "xl_col_to_offset_eq_model")]
+    "xl_col_to_offset_eq_model", "col_to_index_eq_model")]
 TRANSLATED_GROUPS = ("A1",)
 RULE = ("exhaustive: every column 0..18277 x col_abs through xl_col_to_name, every <=3-letter name through both "
         "decoders, every short string over {$,A,B,Z,a,0,1,9,:} through both regex-based parsers; rows: quick = "
